@@ -120,14 +120,13 @@ func buildKindTables(prog *Program, a *Anchors) *kindTables {
 		}
 	}
 	// coercion table
-	pe := paramSym(a.CoerceTab.Params[0])
-	pk2 := paramSym(a.CoerceTab.Params[1])
+	litSym, pk2 := a.coerceLiteral()
 	for k := 0; k < nKinds; k++ {
 		ps := NewPathSim(prog)
 		kk := k
 		ps.Seed = func(st *pstate) {
 			st.eqc[pk2.Key()] = kindConst(kk).Key()
-			assume(st, &Sym{K: sCmp, Op: token.EQL, A: loadField(pe, "Value"), B: nilSym()}, false)
+			assume(st, &Sym{K: sCmp, Op: token.EQL, A: litSym, B: nilSym()}, false)
 		}
 		ps.Inline = func(c *ssa.Function) bool { return prog.InModule(c) && !isCoercion(c) }
 		sums := ps.Run(a.CoerceTab)
@@ -968,7 +967,7 @@ func (c *c09ctx) coerceKindsOf(st *pstate, x *Sym) (KindSet, bool) {
 	if eq, ok := evalEq(st, &Sym{K: sRes, A: x.A, Idx: 1}, nilSym()); !ok || !eq {
 		return 0, false
 	}
-	ks0 := c.kindsFromKindSym(st, args[1])
+	ks0 := c.kindsFromKindSym(st, c.a.coerceKindArg(args))
 	var out KindSet
 	for k := 0; k < nKinds; k++ {
 		if ks0&(1<<uint(k)) == 0 {
@@ -1060,7 +1059,7 @@ func (c *c09ctx) assertOK(f *ssa.Function, st *pstate, x *Sym, target types.Type
 			if eq, ok := evalEq(st, &Sym{K: sRes, A: x.A, Idx: 1}, nilSym()); !ok || !eq {
 				return false, "the coerced literal is asserted although the coercion's error is not known to be nil"
 			}
-			ks0 := c.kindsFromKindSym(st, args[1])
+			ks0 := c.kindsFromKindSym(st, c.a.coerceKindArg(args))
 			for k := 0; k < nKinds; k++ {
 				if ks0&(1<<uint(k)) == 0 {
 					continue
@@ -1179,8 +1178,8 @@ func (c *c09ctx) comparatorCallOK(st *pstate, ev *Event, tableCall *ssa.Call) (b
 		return false, "the first argument of the comparator does not come from the coercion table"
 	}
 	cargs := symArgs(st, mv.A)
-	if len(cargs) != 2 || cargs[1].Key() != k1.Key() {
-		return false, "the literal was coerced for kind " + shortKey(cargs[1]) + " but the comparator was chosen for kind " + shortKey(k1)
+	if len(cargs) != 2 || c.a.coerceKindArg(cargs).Key() != k1.Key() {
+		return false, "the literal was coerced for kind " + shortKey(c.a.coerceKindArg(cargs)) + " but the comparator was chosen for kind " + shortKey(k1)
 	}
 	if eq, ok := evalEq(st, &Sym{K: sRes, A: mv.A, Idx: 1}, nilSym()); !ok || !eq {
 		return false, "the coerced literal is used although the coercion's error is not known to be nil"
